@@ -16,7 +16,7 @@ import (
 var Pool = []string{
 	"a", "A", "b", "a/b", "A/b", "a/B", "a/b/c",
 	"go.mod", "GO.MOD", "Go.Mod", "sub/go.mod", "sub/GO.MOD", "sub/x.go", "sub/deep/y.go", "sub/deep/go.mod", "SUB/z.go", "sub2/w.go",
-	"vendor/modules.txt", "vendor/x.go", "vendor/p/x.go", "pkg/vendor/vendor.go", "pkg/vendor/p/x.go", "sub/vendor/p/x.go", "cmd/vendor/vendor.go",
+	"vendor/modules.txt", "vendor/x.go", "vendor/p/x.go", "pkg/vendor/vendor.go", "pkg/vendor/p/x.go", "pkg/vendor/go.mod", "sub/vendor/p/x.go", "cmd/vendor/vendor.go",
 	"LICENSE", "sub/LICENSE", ".hg_archival.txt", "sub/.hg_archival.txt", ".git", "sub/.hg",
 	"con", "con.txt", "a b", "é", "K", "k", "\u212a", "k/x", "\u212a/y", "s", "\u017f", "σ", "ς",
 	"../x", "./a", "a//b", "a/", "/abs", "", "a:b", "a\\b", ".", "vendor", "sub", "x.", "a~1",
